@@ -211,7 +211,10 @@ pub fn run_case(cfg: &RunCfg, case: &Case) -> Verdict {
         if v.is_fail() {
             return v;
         }
-        return progress_checks(v, base, &out, true, case.disc_ms);
+        // a half-close that arrives after the responses were read arrives while the server
+        // lingers / idles: it must end the connection at once, not at the linger deadline
+        let slack = if matches!(case.fault, Fault::EofAfterResponses(ms) if ms > 0) { 0 } else { case.disc_ms };
+        return progress_checks(v, base, &out, true, slack);
     }
 
     // ---- faults: truncated stream + half-close / reset
@@ -382,7 +385,7 @@ fn progress_checks(v: Verdict, base: &c02::Case, out: &Outcome, eof_script: bool
         if let Some(pd) = out.peer_done_at {
             // (with a disconnect timeout the server may linger for that long after a response to
             // an unread body when the peer's half-close was seen before lingering started)
-            let limit = pd.max(bound) + disc_ms as u64 + if disc_ms > 0 { 500 } else { 0 } + 200;
+            let limit = pd.max(bound) + if disc_ms > 0 { disc_ms as u64 + 500 } else { 0 } + 200;
             if out.end_at > limit {
                 return v.fail_with(format!(
                     "connection task completed at {} ms, long after the peer finished (at {pd} ms) and all work was done (bound {bound} ms)",
